@@ -73,3 +73,39 @@ Theorem C02_source_frames :
      "try_slice_fill_in_index_order"; "slice_fill_iter_takes_next_per_index"]%string.
 Proof. repeat (constructor; [vm_compute; reflexivity|]). constructor. Qed.
 Print Assumptions C02_source_frames.
+
+(* ---------- the loop of alloc_slice_fill_with / try_alloc_slice_fill_with as /repo's source has it.
+   tools/rs2v.py translates the `for i in 0..len` statement of both functions into the statement
+   language of RustSem on every run (LeafActual.src_procs); the caller's closure is answered by a
+   script (None: it panics).  For every length, destination and script: the closure is called with
+   0, 1, 2, .. in that order, once per index, and each result is stored at dst + i before the next
+   call; when no call panics all len indices are served; a panic at index k leaves exactly k stores ---------- *)
+From BV Require Import DedupWalkOk TruncWalkOk FillWalkOk.
+From Coq Require Import List.
+Import ListNotations.
+Theorem C02_source_fill_loop : forall len dst tr sc f, dst + len < W ->
+  (N.to_nat len <= List.length sc)%nat ->
+  let '(t, q, b) := frun dst (N.to_nat len) 0 sc in
+  exec src_fns (S (S (S (S (S (S f)))))) (fenv0 len dst) tr sc floop =
+  if b then XPanic (fenv len dst q) (List.app tr t)
+  else XOk (fenv len dst q) (List.app tr t) (skipn (N.to_nat len) sc).
+Proof. exact loop_is_frun. Qed.
+
+Theorem C02_source_try_fill_loop_is_the_same : tfloop = floop.
+Proof. exact (proj2 floop_is). Qed.
+
+Theorem C02_fill_calls_in_index_order : forall j dst i sc,
+  (j <= List.length sc)%nat -> forallb returns (firstn j sc) = true ->
+  frun dst j i sc = (filled dst j i, i + N.of_nat j, false) /\
+  map (fun e : effect => snd e) (filter (fun e : effect => String.eqb (fst e) "f") (filled dst j i))
+    = map (fun k => [VN (i + N.of_nat k)]) (seq 0 j) /\
+  map (fun e : effect => snd e) (filter (fun e : effect => String.eqb (fst e) "write") (filled dst j i))
+    = map (fun k => [VN (dst + (i + N.of_nat k))]) (seq 0 j).
+Proof.
+  intros j dst i sc H1 H2. split; [apply frun_all_return; assumption|].
+  split; [apply filled_asks | apply filled_writes].
+Qed.
+
+Print Assumptions C02_source_fill_loop.
+Print Assumptions C02_source_try_fill_loop_is_the_same.
+Print Assumptions C02_fill_calls_in_index_order.
